@@ -28,6 +28,18 @@ class C08(PipelineProp):
             # a short scaffold whose two contigs are separated by two gap rows: often shorter than a texel
             k = len(inp["scaffolds"]) + 1
             inp["scaffolds"].append({"name": f"scf{k}x", "rows": [["F", f"dg{k}a", 1, rng.choice([1, 3, 40]), 1, []], ["G", rng.choice([1, 2, 10]), "scaffold"], ["G", rng.choice([1, 5]), "contig"], ["F", f"dg{k}b", 1, rng.choice([1, 2, 30]), rng.choice([1, -1]), []]]})
+        if rng.random() < 0.25:
+            # assembler-style names: letters, digits, an underscore and a suffix that is not a number
+            # (not the ToL <hap>_<something>_<n> shape, so no haplotype is to be read out of them)
+            for k, sc in enumerate(inp["scaffolds"]):
+                if rng.random() < 0.6:
+                    new = rng.choice(["tig{:08d}_pilon", "ctg{}_arrow", "scaffold{}_polished", "ptg{:06d}l_1x", "Contig{}_v2"]).format(k + 1)
+                    own = sc["rows"][0][1] == sc["name"]
+                    if own:
+                        for r in sc["rows"]:
+                            if r[0] == "F":
+                                r[1] = new
+                    sc["name"] = new
         total = sum(P.sc_len(sc) for sc in inp["scaffolds"])
         bpt_str = P.choose_bpt(rng, total)
         bpt = Fraction(bpt_str)
